@@ -130,6 +130,7 @@ func init() {
 				{"JwksURI", []string{"op.Server.Keys"}}, {"DeviceAuthorization", []string{"op.Server.DeviceAuthorization"}}, {"discovery", []string{"op.Server.Discovery"}},
 			}, serverRouteKey)
 			RunRouterMiddleware(c, "E7.router.middleware", []string{"op"})
+			RunIssuerCoverage(c, "E7.routes.issuer-interceptor", []string{"KeysEndpoint"})
 			RunNoFieldWriters(c, "E6.checksession-unwritten", "op", "Endpoints", "CheckSessionIframe", "check_session_iframe is advertised from this field but no route exists: a writer needs a route")
 			RunCallers(c, "E8.issuer.id-token-table", "op.CreateIDToken", []string{"op.CreateTokenResponse", "op.CreateDeviceTokenResponse", "op.CreateTokenExchangeResponse"}, "every ID token is issued with IssuerFromContext(ctx)")
 			RunCallers(c, "E8.issuer.jwt-table", "op.CreateJWT", []string{"op.CreateAccessToken"}, "every JWT access token is issued with IssuerFromContext(ctx)")
